@@ -57,6 +57,13 @@ static size_t pick_memory(Rng& rng, size_t n, size_t strsize, bool big) {
     case 2: return 1;
     case 3: return 1 + rng.below(30000);
     case 4: return 1u << 20 << rng.below(5);
+    case 5: {
+        // a limit that lets a radix sort start and then run out of step-stack budget a few levels down:
+        // memory_use (k * n + small) + 3..7 times the size of one radix step (256 or 65536 counters)
+        size_t k = rng.coin() ? strsize + rng.below(3) : 1 + rng.below(2);
+        size_t S = (big && rng.coin()) ? 0x10000 * sizeof(size_t) + 64 : 0x100 * sizeof(size_t) + 40;
+        return 32 + k * n + (3 + rng.below(5)) * S + rng.below(S);
+    }
     default: {
         // around the memory_use terms of the five radix sorts: k * n + a slack-sized offset
         static const size_t ks[] = { 1, 2, 3, 8, 9, 10, 11, 16, 17, 32, 33, 34 };
